@@ -56,6 +56,7 @@ type gChart struct {
 	mkeys    []string
 	files    map[string]string // relative path -> content
 	hasNotes bool
+	stateful bool // its templates write to and read from the values they share
 }
 
 var c05SubNames = []string{"sub", "aaa", "zeta", "common", "db", "web-ui"}
@@ -195,6 +196,27 @@ func (g *c05Gen) block(c *gChart) string {
 	}
 }
 
+// Templates of one render share their values and can write to them: what a file prints then
+// depends on which files were executed before it.  writer() is put at the top of a template
+// file, reader() into a data section.
+func (g *c05Gen) writer(c *gChart) string {
+	switch g.r.Intn(4) {
+	case 0:
+		return "{{- $_ := set .Values \"trace\" (printf \"%s>%s\" (default \"\" .Values.trace) .Template.Name) -}}\n"
+	case 1:
+		return "{{- $_ := set .Values.global \"gtrace\" (printf \"%s|%s\" (default \"\" .Values.global.gtrace) (base .Template.Name)) -}}\n"
+	case 2:
+		return "{{- $_ := set .Values.m (printf \"w%d\" (len .Values.m)) .Template.Name -}}\n"
+	default:
+		return "{{- $_ := set .Values \"trace\" (printf \"%s>%s\" (default \"\" .Values.trace) .Template.Name) -}}\n" +
+			"{{- $_ := unset .Values.nested \"z\" -}}\n{{- $_ := set .Values.nested.a \"seen\" (len .Values.m) -}}\n"
+	}
+}
+
+func (g *c05Gen) reader() string {
+	return "  trace: {{ .Values.trace | default \"\" | quote }}\n  gtrace: {{ .Values.global.gtrace | default \"\" | quote }}\n  shared: {{ dict \"m\" .Values.m \"n\" .Values.nested | toJson | quote }}\n"
+}
+
 var c05HookAnn = []string{"pre-install", "post-install", "pre-install,post-install", " Pre-Install , post-upgrade", "test", "test-success",
 	"pre-delete,post-delete", "pre-rollback", "pre-foo", "pre-install,bogus", "post-upgrade,pre-upgrade"}
 
@@ -268,6 +290,9 @@ func (g *c05Gen) doc(c *gChart, idx int, allDefs []string, hook bool) string {
 	if g.chance(3) {
 		b.WriteString("  dup: {{ include \"common.dup\" . | quote }}\n")
 	}
+	if c.stateful {
+		b.WriteString(g.reader())
+	}
 	if g.chance(5) {
 		b.WriteString("  yaml:\n{{ toYaml .Values.m | indent 4 }}\n")
 	}
@@ -290,6 +315,9 @@ func (g *c05Gen) templateFile(c *gChart, allDefs []string, hooks bool) string {
 	}
 	if g.chance(10) {
 		out = fmt.Sprintf("{{- define %q -}}inline-%s{{- end -}}\n", c.name+".inline", c.name) + out
+	}
+	if c.stateful {
+		out = g.writer(c) + out
 	}
 	return out
 }
@@ -323,6 +351,7 @@ func (g *c05Gen) values(c *gChart, root bool) string {
 
 func (g *c05Gen) chart(name string, depth int, malformed *string) *gChart {
 	c := &gChart{name: name, depth: depth, files: map[string]string{}}
+	c.stateful = g.chance(3)
 	if depth > 0 && g.chance(8) {
 		c.typ = "library"
 	} else if g.chance(3) {
@@ -417,6 +446,9 @@ func (g *c05Gen) chart(name string, depth int, malformed *string) *gChart {
 	if g.chance(2) || (depth == 0 && g.chance(2)) {
 		c.hasNotes = true
 		c.files["templates/NOTES.txt"] = fmt.Sprintf("Notes of %s ({{ .Release.Name }}): {{ %s }}\n{{ include %q . }}%s", name, g.expr(c, allDefs), name+".name", g.pick("", "\n", "\n\n"))
+		if c.stateful {
+			c.files["templates/NOTES.txt"] = g.writer(c) + c.files["templates/NOTES.txt"] + "\ntrace: {{ .Values.trace | default \"\" }} {{ .Values.global.gtrace | default \"\" }}\n"
+		}
 	}
 	if g.chance(12) {
 		c.files["templates/sub/NOTES.txt"] = "nested notes of " + name + "\n"
